@@ -110,7 +110,7 @@ def slot_value(rng, schema, which, u):
     return GS.rloop(rng, u.lab, u.d, minlabel, True)
 
 
-def gen_setter_history(rng, schema, n_tracks=2, n_ops=30, big=False, first_id=None, no_perf_row=False):
+def gen_setter_history(rng, schema, n_tracks=2, n_ops=30, big=False, first_id=None, no_perf_row=False, foreign_flags=False):
     """Ops: create n tracks from rich snapshots, then n_ops single-field setter calls.
     Returns (ops, metas): metas[i] describes ops[i] (None for set-up ops)."""
     u = Uniq()
@@ -135,6 +135,11 @@ def gen_setter_history(rng, schema, n_tracks=2, n_ops=30, big=False, first_id=No
         ops.append({"op": "raw_exec", "sql": "DELETE FROM PerformanceData WHERE id = (SELECT id FROM Track WHERE path = ?)", "params": [{"t": p0}]})
         metas.append(None)
         rate_count_ok["t0"] = False
+    if foreign_flags:
+        # the tracks as Engine DJ leaves them after the user has worked with them: grid locked, played, imported ... - columns no
+        # getter shows and no setter is documented to consult
+        ops.append({"op": "foreign_flags", "pick": rng.choice([-1, -1, 1, rng.randrange(1, 2048)])})
+        metas.append(None)
     for _ in range(n_ops):
         th = "t%d" % rng.randrange(n_tracks)
         # choose a field, biased toward storage-coupled pairs
@@ -221,6 +226,8 @@ def gen_library_history(rng, schema, n_ops, rich_tracks=2, hostile=False):
         elif r < 0.74 and lt:
             # rows in the tables only Engine DJ writes (prepare list, history, copy records) that name one of the tracks
             push(({"op": "foreign_rows", "t": rng.choice(lt)}, {"kind": "foreign_rows"}))
+        elif r < 0.755 and lt:
+            push(({"op": "foreign_flags", "t": rng.choice(lt), "pick": rng.choice([-1, 1, rng.randrange(1, 2048)])}, {"kind": "foreign_rows"}))
         elif r < 0.78 and schema.startswith("2."):
             # a chain re-linked by a foreign writer (Engine DJ re-ordering a list): harness SQL, not a library call
             push(FO.gen_foreign_reorder(rng, st))
